@@ -346,11 +346,20 @@ fn apply_stack_effects(fun_builder: &mut FunBuilder, instructions: &mut [Symboli
   let mut label_slots: Vec<Option<i32>> = vec![None; label_count(instructions)];
   let mut falls_through = true;
 
+  // a label behind an unconditional transfer that no jump has reached yet
+  // starts unreachable code, a loop behind a return. What pushed its
+  // variables was removed as dead so the depth means nothing there
+  let mut reachable = true;
+
   for instruction in instructions {
     if let SymbolicByteCode::Label(label) = instruction {
-      if !falls_through {
-        if let Some(Some(jump_slots)) = label_slots.get(label.val() as usize) {
-          slots = *jump_slots;
+      if !falls_through || !reachable {
+        match label_slots.get(label.val() as usize) {
+          Some(Some(jump_slots)) => {
+            slots = *jump_slots;
+            reachable = true;
+          },
+          _ => reachable = false,
         }
       }
     }
@@ -390,12 +399,15 @@ fn apply_stack_effects(fun_builder: &mut FunBuilder, instructions: &mut [Symboli
     };
 
     if let Some((label, jump_slots)) = jump {
-      if let Some(label_slot) = label_slots.get_mut(label.val() as usize) {
-        *label_slot = Some(jump_slots);
+      // a jump in unreachable code does not make its target reachable
+      if reachable {
+        if let Some(label_slot) = label_slots.get_mut(label.val() as usize) {
+          *label_slot = Some(jump_slots);
+        }
       }
     }
 
-    debug_assert!(slots >= 0);
+    debug_assert!(!reachable || slots >= 0);
     fun_builder.update_max_slots(slots);
   }
 }
